@@ -340,9 +340,19 @@ XalanTranscodingServices::encodingIsUTF8(const XalanDOMString&  theEncodingName)
 bool
 XalanTranscodingServices::encodingIsUTF16(const XalanDOMChar*   theEncodingName)
 {
+    // XalanDOMChar strings are written as they are in memory when this
+    // returns true, so of "UTF-16LE" and "UTF-16BE" only the one that is
+    // the byte order of this machine qualifies; the other one goes through
+    // a real transcoder like any other encoding.
+    const XalanDOMChar  theOne = 1;
+
+    const bool  fBigEndian =
+        *reinterpret_cast<const unsigned char*>(&theOne) == 0;
+
     return compareIgnoreCaseASCII(theEncodingName, s_utf16String) == 0 ||
-           compareIgnoreCaseASCII(theEncodingName, s_utf16LEString) == 0 ||
-           compareIgnoreCaseASCII(theEncodingName, s_utf16BEString) == 0 ? true : false;
+           compareIgnoreCaseASCII(
+                theEncodingName,
+                fBigEndian == true ? s_utf16BEString : s_utf16LEString) == 0 ? true : false;
 }
 
 
